@@ -736,9 +736,17 @@ func vC02RefEval(k int, a, b, c uint64) vC02Ref {
 	}
 }
 
-var vC02RefExprs = []string{
-	"a ? b : c", "a && b", "a || b", "a ?? b", "!a", "-a", "+a", "~a", "typeof a", "void a", "(a, b)",
-	"a < b", "a <= b", "a == b", "a === b", "a != b", "a & b", "a | b", "a ^ b", "a << b", "a >> b", "a >>> b",
+// template, reference operation (case number in vC02RefEval), whether b is symbolic too
+var vC02RefExprs = []struct {
+	src    string
+	op     int
+	binary bool
+}{
+	{"a ? b : c", 0, true}, {"a && b", 1, true}, {"a || b", 2, true}, {"!a", 4, false}, {"-a", 5, false},
+	{"typeof a", 8, false}, {"void a", 9, false},
+	{"a ?? b", 3, true}, {"+a", 6, false}, {"~a", 7, false}, {"(a, b)", 10, true},
+	{"a < b", 11, true}, {"a <= b", 12, true}, {"a == b", 13, true}, {"a === b", 14, true}, {"a != b", 15, true},
+	{"a & b", 16, true}, {"a | b", 17, true}, {"a ^ b", 18, true}, {"a << b", 19, true}, {"a >> b", 20, true}, {"a >>> b", 21, true},
 }
 
 func vC02NumberBits(x interface{}) uint64 {
@@ -753,15 +761,15 @@ func vC02NumberBits(x interface{}) uint64 {
 
 func H_C02_expr_vs_reference() {
 	k := vBound("REF0") + vChoice("expr", vBound("REFS"))
-	e := vC02RefExprs[k]
-	binary := k >= 10 || k <= 3
+	e := vC02RefExprs[k].src
+	binary := vC02RefExprs[k].binary
 	vals := vC02Vals{1001: vC02Number("A")}
 	bBits := math.Float64bits(1002)
 	if binary {
 		vals[1002] = vC02Number("B")
 		bBits = vC02NumberBits(vals[1002])
 	}
-	want := vC02RefEval(k, vC02NumberBits(vals[1001]), bBits, math.Float64bits(1003))
+	want := vC02RefEval(vC02RefExprs[k].op, vC02NumberBits(vals[1001]), bBits, math.Float64bits(1003))
 	lit := vC02Subst(e, "1001", "1002", "1003")
 	progs := []string{
 		lit,
